@@ -14,6 +14,7 @@ import (
 	"go/token"
 	"go/types"
 	"sort"
+	"strings"
 
 	"golang.org/x/tools/go/ssa"
 )
@@ -351,4 +352,171 @@ func ruleBufferReuse(p *Prog, r *Report, rule string, pkgs map[string]bool) {
 		}
 	}
 	r.add(rule, "reuse|scanned", "", fmt.Sprintf("%d functions scanned for reused buffers", n), n > 0, "no function was analysed")
+}
+
+// ---- R-X: conditional exits of functions that work by effect ----
+
+type exitSite struct {
+	Fn  *ssa.Function
+	In  ssa.Instruction
+	Sig string
+}
+
+// exitSitesOf: the returns of a function without results that lie under a condition
+// (loop conditions excluded): the paths on which the function leaves early.
+func exitSitesOf(fn *ssa.Function) []exitSite {
+	if fn.Signature.Results().Len() != 0 || len(fn.Blocks) == 0 {
+		return nil
+	}
+	var out []exitSite
+	for _, b := range fn.Blocks {
+		if len(b.Instrs) == 0 {
+			continue
+		}
+		ret, ok := b.Instrs[len(b.Instrs)-1].(*ssa.Return)
+		if !ok {
+			continue
+		}
+		gs := guardSet(ret)
+		og := orGuardSet(ret)
+		if len(gs) == 0 && og == "" {
+			continue
+		}
+		// the function's last return, reached by falling out of a trailing `if`, is not an
+		// early exit: it has no statement of its own
+		if ret.Pos() == token.NoPos {
+			continue
+		}
+		out = append(out, exitSite{fn, ret, strings.Join(gs, " && ") + " ## " + og})
+	}
+	return out
+}
+
+func rootOf(fn *ssa.Function) *ssa.Function {
+	for fn.Parent() != nil {
+		fn = fn.Parent()
+	}
+	return fn
+}
+
+func ruleExitsAudited(p *Prog, r *Report, rule, prop string, pkgs map[string]bool, floor int) {
+	r.rule(rule, "Early exits of functions that work by effect: in the planner, merger and session packages a function without results (also a closure) does its work by emitting commands, setting marks and rewriting lists; a `return` under a condition skips that work. Every such return is audited with its controlling conditions (tables/exits_audit.tsv, compared as multisets per function); a new early return is reported when it tests something the audited function does not test anywhere (tables/fn_conditions.tsv, regenerated with the fingerprints): `if c { body }` written as `if !c { return }; body` adds a return but no decision.")
+	want := map[string][]string{}
+	why := map[string]string{}
+	for _, row := range readTable("exits_audit.tsv", 4) {
+		if propListed(row[2], prop) {
+			want[row[0]] = append(want[row[0]], row[1])
+			why[row[0]] = row[3]
+		}
+	}
+	// every audited exit of a function counts for the comparison, whatever property its row lists
+	all := map[string][]string{}
+	for _, row := range readTable("exits_audit.tsv", 4) {
+		all[row[0]] = append(all[row[0]], row[1])
+		if why[row[0]] == "" {
+			why[row[0]] = row[3]
+		}
+	}
+	n := 0
+	conds := auditedConditions()
+	respelled := 0
+	for _, fn := range allModFuncs(p) {
+		if !pkgs[pkgOfFunc(fn)] || fn.Synthetic != "" {
+			continue
+		}
+		sites := exitSitesOf(fn)
+		name := fnDisplay(fn)
+		if len(sites) == 0 && len(want[name]) == 0 {
+			continue
+		}
+		var got []string
+		pos := p.pos(fn.Pos())
+		for _, s := range sites {
+			got = append(got, s.Sig)
+			pos = p.ipos(s.In)
+		}
+		w := append([]string{}, all[name]...)
+		sort.Strings(got)
+		sort.Strings(w)
+		// new or changed exits are reported; an audited exit that is gone skips nothing
+		extra := ""
+		left := map[string]int{}
+		for _, x := range w {
+			left[x]++
+		}
+		for _, x := range got {
+			if left[x] > 0 {
+				left[x]--
+			} else if exitIsRespelling(x, conds[name]) {
+				respelled++
+			} else if conds[name] == nil && auditedFnNames != nil && !auditedFnNames[shortName(rootOf(fn))] {
+				// a function the audited tree does not have: nothing to compare with
+				respelled++
+			} else {
+				extra += "\n   unaudited: " + x
+			}
+		}
+		n += len(got)
+		r.add(rule, "exits|"+name, pos, fmt.Sprintf("%d early return(s) of %s are the audited ones (%s)", len(got), name, why[name]), extra == "",
+			"the function leaves early under conditions that were not audited: the commands, marks or rewrites behind the return are skipped"+extra)
+	}
+	if respelled > 0 {
+		r.note(rule+": %d early return(s) test only what the audited function tests already (a respelling) or belong to a new function", respelled)
+	}
+	r.floor(rule, "early returns of effect functions", n, floor)
+}
+
+// fnConditions: the tests a function makes (both polarities, loop conditions excluded),
+// in the normalised spelling of the guard sets.
+func fnConditions(fn *ssa.Function) []string {
+	set := map[string]bool{}
+	for _, b := range fn.Blocks {
+		i := ifOf(b)
+		if i == nil || isLoopCond(b) {
+			continue
+		}
+		set[descCond(i.Cond, true)] = true
+		set[descCond(i.Cond, false)] = true
+	}
+	var out []string
+	for c := range set {
+		out = append(out, c)
+	}
+	sort.Strings(out)
+	return out
+}
+
+// auditedConditions: tables/fn_conditions.tsv (regenerated with the fingerprints): per function
+// of the audited tree the tests it makes.
+func auditedConditions() map[string]map[string]bool {
+	out := map[string]map[string]bool{}
+	for _, row := range readTable("fn_conditions.tsv", 2) {
+		if out[row[0]] == nil {
+			out[row[0]] = map[string]bool{}
+		}
+		out[row[0]][row[1]] = true
+	}
+	return out
+}
+
+// exitIsRespelling: every condition of the exit is a test the audited function already made
+// (`if c { body }` written as `if !c { return }; body` adds a return but no decision).
+func exitIsRespelling(sig string, known map[string]bool) bool {
+	if known == nil {
+		return false
+	}
+	a, b, _ := strings.Cut(sig, " ## ")
+	for _, c := range strings.Split(a, " && ") {
+		if c != "" && !known[c] {
+			return false
+		}
+	}
+	if b != "" && b != "*" {
+		for _, c := range strings.Split(b, " || ") {
+			if c != "" && !known[c] {
+				return false
+			}
+		}
+	}
+	return true
 }
